@@ -11,6 +11,8 @@ use program_structure::constants::{Curve, UsefulConstants};
 use program_structure::ir::degree_meta::{Degree, DegreeEnvironment, DegreeMeta, DegreeRange};
 use program_structure::ir::value_meta::{ValueEnvironment, ValueMeta, ValueReduction};
 use program_structure::ir::*;
+use program_structure::ssa::dominator_tree::DominatorTree;
+use program_structure::ssa::traits::{DirectedGraphNode, Index, IndexSet};
 use std::io::{self, BufRead, Write};
 use std::panic;
 use std::str::FromStr;
@@ -174,6 +176,56 @@ fn value_cmd(w: &[&str]) -> String {
     }
 }
 
+struct Node {
+    index: Index,
+    preds: IndexSet,
+    succs: IndexSet,
+}
+impl DirectedGraphNode for Node {
+    fn index(&self) -> Index {
+        self.index
+    }
+    fn predecessors(&self) -> &IndexSet {
+        &self.preds
+    }
+    fn successors(&self) -> &IndexSet {
+        &self.succs
+    }
+}
+fn sorted(s: IndexSet) -> Vec<usize> {
+    let mut v: Vec<usize> = s.into_iter().collect();
+    v.sort();
+    v
+}
+/// domtree <preds of node 0> <preds of node 1> ...   (comma separated, '-' for none) -> JSON
+fn domtree_cmd(w: &[&str]) -> String {
+    let n = w.len();
+    let mut nodes: Vec<Node> = (0..n).map(|i| Node { index: i, preds: IndexSet::new(), succs: IndexSet::new() }).collect();
+    for (i, spec) in w.iter().enumerate() {
+        if *spec == "-" {
+            continue;
+        }
+        for p in spec.split(',') {
+            let j: usize = p.parse().unwrap();
+            nodes[i].preds.insert(j);
+            nodes[j].succs.insert(i);
+        }
+    }
+    let t = DominatorTree::new(&nodes);
+    let list = |f: &dyn Fn(usize) -> Vec<usize>| -> String {
+        let parts: Vec<String> = (0..n).map(|i| format!("{:?}", f(i))).collect();
+        format!("[{}]", parts.join(", "))
+    };
+    let idoms: Vec<String> = (0..n).map(|i| match t.get_immediate_dominator(i) { Some(d) => d.to_string(), None => "null".to_string() }).collect();
+    format!(
+        "{{\"dom\": {}, \"idom\": [{}], \"children\": {}, \"frontier\": {}}}",
+        list(&|i| sorted(t.get_dominators(i))),
+        idoms.join(", "),
+        list(&|i| sorted(t.get_dominator_successors(i))),
+        list(&|i| sorted(t.get_dominance_frontier(i)))
+    )
+}
+
 fn main() {
     panic::set_hook(Box::new(|_| {}));
     let stdin = io::stdin();
@@ -187,6 +239,7 @@ fn main() {
         let r = panic::catch_unwind(|| match w[0] {
             "degree" => degree_cmd(&w[1..]),
             "value" => value_cmd(&w[1..]),
+            "domtree" => domtree_cmd(&w[1..]),
             _ => "UNKNOWN".to_string(),
         });
         let s = match r {
